@@ -39,6 +39,9 @@ type SessCase struct {
 	Mode   string             `json:"mode"`   // deny-table | allow-tables | deny-query | deny-pattern | allow-queries
 	Steps  []SessStep         `json:"steps"`
 	Style  int                `json:"yaml_style,omitempty"`
+	// Noisy: the database sends asynchronous NoticeResponse messages all the time (about every 30 microseconds):
+	// the database side of the proxy is at work while the client side judges and rejects statements
+	Noisy bool `json:"noisy,omitempty"`
 }
 
 var sessModes = []string{"deny-table", "deny-table", "allow-tables", "deny-query", "deny-pattern", "allow-queries"}
@@ -117,6 +120,7 @@ func genSessCase(t *rapid.T) SessCase {
 		}
 		c.Steps = append(c.Steps, st)
 	}
+	c.Noisy = rapid.IntRange(0, 2).Draw(t, "noisy") == 0
 	return c
 }
 
@@ -374,7 +378,11 @@ func runSession(c SessCase) sessResult {
 		o.vs.Add("harness:tokens", "%v", err)
 		return fail()
 	}
-	s, err := pgsess.Start(pgsess.Config{SchemaYAML: schema, KeyStore: w.KS, ClientID: w.Alice, Tables: defs, Tokenizer: tok, Censor: censor, Timeout: 5 * time.Second})
+	var noise time.Duration
+	if c.Noisy {
+		noise = 30 * time.Microsecond
+	}
+	s, err := pgsess.Start(pgsess.Config{SchemaYAML: schema, KeyStore: w.KS, ClientID: w.Alice, Tables: defs, Tokenizer: tok, Censor: censor, Timeout: 5 * time.Second, NoticeEvery: noise})
 	if err != nil {
 		o.vs.Add("harness:start", "%v\n%s", err, schema)
 		return fail()
@@ -397,6 +405,9 @@ func runSession(c SessCase) sessResult {
 		s.Close()
 	}()
 	o.class("mode:%s", c.Mode)
+	if c.Noisy {
+		o.class("db:asynchronous-notices")
+	}
 
 	rows := make([][][]pgprog.Val, len(c.Tables)) // model of what the client wrote
 	var rejectedSQL []string
